@@ -71,11 +71,40 @@ def compute(tier, seed):
     shutil.copy(os.path.join(REPO, "Cargo.lock"), os.path.join(root, "Cargo.lock"))
     open(os.path.join(root, ".cargo", "config.toml"), "w").write(
         "[net]\noffline = true\n[build]\nrustflags = [\"--cfg\", \"enum_tools_verif\", \"--check-cfg\", \"cfg(enum_tools_verif)\", \"--cap-lints\", \"allow\"]\n")
-    rc, msgs, err = run_rt.cargo_json(root, ["--lib"])
-    errs = run_rt.errors_of(msgs)
-    if rc != 0:
-        # a declaration of this corpus does not compile: that is C10/C11's business; the expansion check needs a building corpus
-        raise ToolError("expansion corpus does not build: " + "; ".join(f"{f}:{l}: {m}" for f, l, m, _ in errs[:5]) + err[-500:])
+    # declarations of this corpus that do not compile are C10/C11's business: they are dropped here
+    dropped = set()
+    for rnd in range(6):
+        lines = ["#![allow(warnings)]"]
+        spans = []
+        for c in cases:
+            if c["id"] in dropped:
+                continue
+            a = len(lines)
+            lines.append(f"pub mod c{c['id']} {{")
+            lines += render.decl_lines(c)
+            lines.append("}")
+            spans.append((c["id"], a, len(lines)))
+        open(os.path.join(root, "src", "lib.rs"), "w").write("\n".join(lines) + "\n")
+        rc, msgs, err = run_rt.cargo_json(root, ["--lib"])
+        errs = run_rt.errors_of(msgs)
+        if rc == 0:
+            break
+        bad = set()
+        for f, line, msg, code in errs:
+            hit = next((cid for cid, a, b in spans if a < line <= b), None)
+            if hit is None:
+                raise ToolError(f"expansion corpus: unattributed error {f}:{line}: {msg}")
+            bad.add(hit)
+        if not bad:
+            raise ToolError("expansion corpus does not build: " + err[-1500:])
+        dropped |= bad
+    else:
+        raise ToolError("expansion corpus build did not converge")
+    if dropped:
+        log(f"expand: {len(dropped)} declarations do not compile on this tree and are left to C10/C11")
+    cases = [c for c in cases if c["id"] not in dropped]
+    if len(cases) < 20:
+        raise ToolError("expansion corpus: too few declarations compile")
     so = None
     for m in msgs:
         if m.get("reason") == "compiler-artifact" and m.get("target", {}).get("name") in ("enum_tools", "enum-tools"):
